@@ -65,23 +65,59 @@ func extractTransactBody(repo string) ([]string, error) {
 	}
 	var acts []string
 	deferredUnlock := false
-	var walk func(n ast.Node, async, deferred bool)
-	walk = func(n ast.Node, async, deferred bool) {
+	// cond: inside a branch, loop or function literal of the handler (the action may not happen on every path)
+	var walk func(n ast.Node, async, deferred, cond bool)
+	walk = func(n ast.Node, async, deferred, cond bool) {
 		ast.Inspect(n, func(x ast.Node) bool {
 			switch s := x.(type) {
 			case *ast.GoStmt:
-				walk(s.Call, true, deferred)
+				walk(s.Call, true, deferred, cond)
 				return false
 			case *ast.DeferStmt:
-				walk(s.Call, async, true)
+				if fl, ok := s.Call.Fun.(*ast.FuncLit); ok {
+					walk(fl.Body, async, true, cond) // defer func() { ... }(): runs on every path, like a deferred call
+					return false
+				}
+				walk(s.Call, async, true, cond)
+				return false
+			case *ast.IfStmt:
+				if s.Init != nil {
+					walk(s.Init, async, deferred, cond)
+				}
+				walk(s.Cond, async, deferred, cond)
+				walk(s.Body, async, deferred, true)
+				if s.Else != nil {
+					walk(s.Else, async, deferred, true)
+				}
+				return false
+			case *ast.ForStmt:
+				walk(s.Body, async, deferred, true)
+				return false
+			case *ast.RangeStmt:
+				walk(s.Body, async, deferred, true)
+				return false
+			case *ast.SwitchStmt:
+				walk(s.Body, async, deferred, true)
+				return false
+			case *ast.TypeSwitchStmt:
+				walk(s.Body, async, deferred, true)
+				return false
+			case *ast.SelectStmt:
+				walk(s.Body, async, deferred, true)
 				return false
 			case *ast.FuncLit:
-				return true
+				walk(s.Body, async, deferred, true)
+				return false
 			case *ast.CallExpr:
 				name := sel(s.Fun)
 				suffix := ""
 				if async {
 					suffix = "Async"
+				}
+				if strings.HasPrefix(name, "o.txnMutex.") && (cond || (name != "o.txnMutex.Lock" && name != "o.txnMutex.Unlock")) {
+					// a shared, try or conditional use of the transaction lock excludes nobody
+					acts = append(acts, "AWeakLock"+suffix)
+					return true
 				}
 				switch name {
 				case "o.txnMutex.Lock":
@@ -103,7 +139,7 @@ func extractTransactBody(repo string) ([]string, error) {
 			return true
 		})
 	}
-	walk(body, false, false)
+	walk(body, false, false, false)
 	if deferredUnlock {
 		acts = append(acts, "AUnlock")
 	}
@@ -157,6 +193,8 @@ func c17Schema() dyn.Schema {
 		{Name: "P", IsRoot: true, Cols: []val.Col{{Name: "name", K: 'a', KT: 's'}, {Name: "kids", K: 's', KT: 'u', Max: -1, RefTable: "K", RefType: "strong"}}},
 		{Name: "K", Cols: []val.Col{{Name: "k", K: 'a', KT: 's'}}},
 		{Name: "M", IsRoot: true, Cols: []val.Col{{Name: "c", K: 'a', KT: 'i'}}},
+		// one row per transaction made of mutate operations only: the transaction marks itself by incrementing its row
+		{Name: "L", IsRoot: true, Cols: []val.Col{{Name: "c", K: 'a', KT: 'i'}}},
 	}}
 }
 
@@ -266,35 +304,12 @@ func driveC17(o opts) error {
 				{Kind: "insert", Table: "P", UUID: p1, Row: map[string]val.Val{"name": val.VA(val.Str("p1")), "kids": val.VS(val.Uuid(k1))}},
 				{Kind: "insert", Table: "P", UUID: p2, Row: map[string]val.Val{"name": val.VA(val.Str("p2")), "kids": val.VS(val.Uuid(k2))}},
 			}
-			ob := lab.runWith(setup, setupPeer.transactor(sc.Name))
-			if !ob.Committed {
-				return fmt.Errorf("setup not committed: %+v", ob.Results)
-			}
-			// monitors
-			nmon := 1 + g.Intn(2)
-			var mons []*peer
-			for i := 0; i < nmon; i++ {
-				mp, err := lab.dial()
-				if err != nil {
-					return err
-				}
-				defer mp.close()
-				reqs := map[string]interface{}{}
-				for _, t := range sc.Tables {
-					reqs[t.Name] = map[string]interface{}{}
-				}
-				method := []string{"monitor", "monitor_cond"}[g.Intn(2)]
-				var reply interface{}
-				if err := mp.c.Call(method, []interface{}{sc.Name, json.RawMessage(`"m"`), reqs}, &reply); err != nil {
-					return fmt.Errorf("monitor: %v", err)
-				}
-				mons = append(mons, mp)
-			}
 			// concurrent clients
 			nclients := 2 + g.Intn(4)
 			type txnRec struct {
 				ops     []TOp
 				marker  string
+				mutOnly bool // no insert, update or delete: the marker is an increment of the transaction's own row of L
 				results []oResult
 				rpcErr  string
 			}
@@ -328,8 +343,44 @@ func driveC17(o opts) error {
 							{Kind: "mutate", Table: "P", Where: whereName(to), Muts: []Mut{{Col: "kids", Mutator: "insert", Arg: val.VS(val.Uuid(kid))}}},
 						}
 					}
-					recs[c] = append(recs[c], &txnRec{ops: ops, marker: fresh()})
+					mutOnly := false
+					if len(ops) > 0 && ops[0].Kind == "mutate" && g.Chance(0.6) {
+						mutOnly = true
+						kinds["mutate-only"]++
+					}
+					recs[c] = append(recs[c], &txnRec{ops: ops, marker: fresh(), mutOnly: mutOnly})
 				}
+			}
+			for c := range recs {
+				for _, r := range recs[c] {
+					if r.mutOnly {
+						setup = append(setup, TOp{Kind: "insert", Table: "L", UUID: r.marker, Row: map[string]val.Val{"c": val.VA(val.Int(0))}})
+					}
+				}
+			}
+			ob := lab.runWith(setup, setupPeer.transactor(sc.Name))
+			if !ob.Committed {
+				return fmt.Errorf("setup not committed: %+v", ob.Results)
+			}
+			// monitors
+			nmon := 1 + g.Intn(2)
+			var mons []*peer
+			for i := 0; i < nmon; i++ {
+				mp, err := lab.dial()
+				if err != nil {
+					return err
+				}
+				defer mp.close()
+				reqs := map[string]interface{}{}
+				for _, t := range sc.Tables {
+					reqs[t.Name] = map[string]interface{}{}
+				}
+				method := []string{"monitor", "monitor_cond"}[g.Intn(2)]
+				var reply interface{}
+				if err := mp.c.Call(method, []interface{}{sc.Name, json.RawMessage(`"m"`), reqs}, &reply); err != nil {
+					return fmt.Errorf("monitor: %v", err)
+				}
+				mons = append(mons, mp)
 			}
 			var wg sync.WaitGroup
 			errs := make([]error, nclients)
@@ -369,7 +420,12 @@ func driveC17(o opts) error {
 								{Kind: "update", Table: "Ctr", Where: whereName("c1"), Row: map[string]val.Val{"n": val.VA(val.Int(cur + 1))}},
 							}
 						}
-						r.ops = append(r.ops, TOp{Kind: "insert", Table: "M", UUID: r.marker, Row: map[string]val.Val{"c": val.VA(val.Int(int64(c)))}})
+						if r.mutOnly {
+							r.ops = append(r.ops, TOp{Kind: "mutate", Table: "L", Where: []Cond{{Col: "_uuid", Fn: "==", Arg: val.VA(val.Uuid(r.marker))}},
+								Muts: []Mut{{Col: "c", Mutator: "+=", Arg: val.VA(val.Int(1))}}})
+						} else {
+							r.ops = append(r.ops, TOp{Kind: "insert", Table: "M", UUID: r.marker, Row: map[string]val.Val{"c": val.VA(val.Int(int64(c)))}})
+						}
 						r.results, r.rpcErr = run(r.ops)
 					}
 				}(c, p)
@@ -410,12 +466,22 @@ func driveC17(o opts) error {
 							ms = append(ms, u)
 						}
 					}
+					for u, ru := range tu["L"] {
+						if ru.New != nil && ru.Old != nil {
+							ms = append(ms, u)
+						}
+					}
 					add(ms)
 				}
 				for _, tu := range b {
 					var ms []string
 					for u, ru := range tu["M"] {
 						if ru.Insert != nil {
+							ms = append(ms, u)
+						}
+					}
+					for u, ru := range tu["L"] {
+						if ru.Modify != nil {
 							ms = append(ms, u)
 						}
 					}
